@@ -85,7 +85,8 @@ def create_quadrature_points_and_weights(
         else:
             pts[cell_name], wts[cell_name] = create_quadrature(cell_name, degree, rule, elements)
     elif integral_type in ufl.measure.facet_integral_types:
-        for ft in cell.facet_types:
+        # (UFL builds these tuples from sets: sort them)
+        for ft in sorted(cell.facet_types):
             pts[ft.cellname], wts[ft.cellname] = create_quadrature(
                 ft.cellname,
                 degree,
@@ -93,7 +94,7 @@ def create_quadrature_points_and_weights(
                 elements,
             )
     elif integral_type in ufl.measure.ridge_integral_types:
-        for rt in cell.ridge_types:
+        for rt in sorted(cell.ridge_types):
             pts[rt.cellname], wts[rt.cellname] = create_quadrature(
                 rt.cellname,
                 degree,
